@@ -38,6 +38,10 @@ impl Rec {
 pub enum Ser {
     FastaLine,       // one sequence line per record (an empty line when there are no bases)
     FastaWrap(usize), // lines of n bases, no line when there are no bases
+    /// as FastaWrap, without the final line terminator: a last record without bases then ends the file with its
+    /// header line, unterminated; LF and CR LF forms
+    FastaWrapNoFinalNl(usize),
+    FastaWrapCrlfNoFinalNl(usize),
     FastaCrlf,
     FastaNoFinalNl,
     Fastq,
@@ -55,6 +59,8 @@ impl Ser {
         match self {
             Ser::FastaLine => "fl".into(),
             Ser::FastaWrap(n) => format!("fw{}", n),
+            Ser::FastaWrapNoFinalNl(n) => format!("fy{}", n),
+            Ser::FastaWrapCrlfNoFinalNl(n) => format!("fz{}", n),
             Ser::FastaCrlf => "fc".into(),
             Ser::FastaNoFinalNl => "fn".into(),
             Ser::Fastq => "ql".into(),
@@ -74,6 +80,8 @@ impl Ser {
             "qn" => Ser::FastqNoFinalNl,
             "fx" => Ser::FastaCrlfNoFinalNl,
             "qx" => Ser::FastqCrlfNoFinalNl,
+            w if w.starts_with("fy") => Ser::FastaWrapNoFinalNl(w[2..].parse().unwrap()),
+            w if w.starts_with("fz") => Ser::FastaWrapCrlfNoFinalNl(w[2..].parse().unwrap()),
             w => Ser::FastaWrap(w[2..].parse().unwrap()),
         }
     }
@@ -93,7 +101,7 @@ pub fn serialise(recs: &[Rec], ser: Ser) -> (Vec<u8>, Vec<usize>) {
                 t.extend_from_slice(&r.bases);
                 t.push(b'\n');
             }
-            Ser::FastaWrap(w) => {
+            Ser::FastaWrap(w) | Ser::FastaWrapNoFinalNl(w) | Ser::FastaWrapCrlfNoFinalNl(w) => {
                 t.extend_from_slice(format!(">{}\n", r.header).as_bytes());
                 for chunk in r.bases.chunks(w) {
                     t.extend_from_slice(chunk);
@@ -111,9 +119,9 @@ pub fn serialise(recs: &[Rec], ser: Ser) -> (Vec<u8>, Vec<usize>) {
             }
         }
     }
-    let strip_final = matches!(ser, Ser::FastaNoFinalNl | Ser::FastqNoFinalNl | Ser::FastaCrlfNoFinalNl | Ser::FastqCrlfNoFinalNl);
+    let strip_final = matches!(ser, Ser::FastaNoFinalNl | Ser::FastqNoFinalNl | Ser::FastaCrlfNoFinalNl | Ser::FastqCrlfNoFinalNl | Ser::FastaWrapNoFinalNl(_) | Ser::FastaWrapCrlfNoFinalNl(_));
     match ser {
-        Ser::FastaCrlf | Ser::FastqCrlf | Ser::FastaCrlfNoFinalNl | Ser::FastqCrlfNoFinalNl => {
+        Ser::FastaCrlf | Ser::FastqCrlf | Ser::FastaCrlfNoFinalNl | Ser::FastqCrlfNoFinalNl | Ser::FastaWrapCrlfNoFinalNl(_) => {
             let mut u = Vec::with_capacity(t.len() + 16);
             let mut nb = Vec::new();
             let mut bi = 0;
@@ -132,7 +140,7 @@ pub fn serialise(recs: &[Rec], ser: Ser) -> (Vec<u8>, Vec<usize>) {
             }
             (u, nb)
         }
-        Ser::FastaNoFinalNl | Ser::FastqNoFinalNl => {
+        Ser::FastaNoFinalNl | Ser::FastqNoFinalNl | Ser::FastaWrapNoFinalNl(_) => {
             if t.last() == Some(&b'\n') {
                 t.pop();
             }
@@ -451,7 +459,7 @@ fn long_bases(len: usize, salt: usize) -> Vec<u8> {
 
 pub fn c06(ctx: &mut Ctx) {
     let lists = rec_lists(ctx.pick(3, 4));
-    let fasta_sers = [Ser::FastaLine, Ser::FastaWrap(1), Ser::FastaWrap(2), Ser::FastaWrap(3), Ser::FastaCrlf, Ser::FastaNoFinalNl, Ser::FastaCrlfNoFinalNl];
+    let fasta_sers = [Ser::FastaLine, Ser::FastaWrap(1), Ser::FastaWrap(2), Ser::FastaWrap(3), Ser::FastaCrlf, Ser::FastaNoFinalNl, Ser::FastaCrlfNoFinalNl, Ser::FastaWrapNoFinalNl(2), Ser::FastaWrapCrlfNoFinalNl(3)];
     let fastq_sers = [Ser::Fastq, Ser::FastqCrlf, Ser::FastqNoFinalNl, Ser::FastqCrlfNoFinalNl];
     let mut sh = ctx.shard;
     let mut case_no = 0u64;
@@ -877,7 +885,7 @@ pub fn c07_configs(ctx: &mut Ctx) {
     big.push(((0..40).map(|i| fill(b"AC", 5 + i % 7)).collect(), 3));
     big.push(((0..64).map(|_| b"AAAAAAAAAA".to_vec()).collect(), 4));
     // counts tables of exactly 4 KiB, 8 KiB, 64 KiB (every line has 8 bytes), one line less, one more
-    {
+    if !ctx.monitor() {
         let recs = eight_byte_line_records(16_400);
         for nrec in crate::conc::boundary_counts(0, 8, 16_390) {
             big.push((recs[..nrec].to_vec(), 8));
@@ -1423,7 +1431,7 @@ pub fn c08(ctx: &mut Ctx) {
     }
     ctx.rep.count("cases.pipeline_multiplicity", n);
     // vector files whose size is exactly a multiple of 4 KiB / 8 KiB / 64 KiB (normalised rows have a fixed width)
-    {
+    if !ctx.monitor() {
         let pool: Vec<Vec<u8>> = (0..8200usize).map(|i| long_bases(2 + i % 7, i)).collect();
         let mut nb = 0u64;
         for bc in [3usize, 16, 64] {
